@@ -3,6 +3,13 @@
 import json, sys
 
 CLAIMED = {
+ "C05": dict(
+   category="model_checking",
+   text="Stateless model checking at API-call granularity: the real teardown pass of an owner (native ObjectSet; annotation-strategy ObjectSetPhase; orphan deletion) over one phase whose objects start in every combination of {controlled, co-owned, foreign, absent} runs as a thread under the controlled scheduler with a scheduling point before every API request, against up to two third-party actions on a target object (re-own to another controller, delete + re-create unowned / owned by another, modify spec, strip owners); every interleaving with <= 2 preemptions is executed (36 systems, ~290 000 executions quick; 3-object phases thorough). Monitors on every request: each delete carries UID+resourceVersion preconditions equal to the version the same pass last read; a delete that takes effect hits an object the owner controls at that instant; an effective write on an object it merely co-owns changes nothing beyond its own owner reference and the cache label; objects owned by others are untouched; orphan deletion sends no delete/patch at all.",
+   design_ref="DESIGN.md §7 C05",
+   note="Trusted: kmodel preconditions/optimistic concurrency; scheduling points only at API requests (controller code between them is thread-local).",
+   technique="stateless model checking under a controlled scheduler (preemption-bounded DFS over API-call interleavings of real controller code), trace monitors",
+   engine="vsched"),
  "C04": dict(
    category="model_checking",
    text="Explicit-state BFS to closure from the fully rolled-out state of an ObjectSet with 2-3 phases (every local/delegated mask quick for 2 phases, 4 masks for 3; thorough all 8 masks x 4 finalizer-hold sets): the user deletes or archives it; then the real ObjectSet and ObjectSetPhase controllers run in every order with a finalizer holder releasing foreign finalizers on managed objects, the garbage collector, a third party making another ObjectSet the controller of an object, and an operator crash before request i of a teardown pass for every i (1 crash quick, 2 thorough; the dynamic cache is lost). Monitors: every effective delete of an object (or phase object) of phase k requires that no object of a later phase that the ObjectSet still controls (transitively through ObjectSetPhases) is present at that instant; every write that drops the package-operator.run/cached finalizer or reports Archived=True requires that nothing listed is still controlled; state invariant: while something is controlled the finalizer is there and Archived is not True.",
